@@ -174,7 +174,8 @@ impl Scenario for Crash {
                         "index" => match rng.below(10) {
                             0..=6 => M::Add { k, a: rng.below(1024) as u16, o: rng.below(1 << 30) as u32, s: rng.below(1 << 20) as u32 },
                             7..=8 => M::Remove { k },
-                            _ => M::Burst { n: *rng.pick(&[3u32, 30, 400, 1300]) },
+                            // (3700 entries in one bucket: the sorted section passes 64 KiB, the update section moves to the next boundary)
+                            _ => M::Burst { n: *rng.pick(&[3u32, 30, 400, 1300, 3700]) },
                         },
                         "residency" => {
                             if rng.chance(1, 8) { M::Burst { n: *rng.pick(&[20u32, 30, 60]) } } else { M::Mark { k, res: rng.chance(65, 100) } }
